@@ -1,6 +1,7 @@
 package route
 
 import (
+	"fmt"
 	"sync"
 	"sync/atomic"
 	"time"
@@ -53,6 +54,13 @@ type CloudWatch struct {
 // NewCloudWatch creates a route that writes metrics to the AWS service CloudWatch
 // We will automatically run the route and the destination
 func NewCloudWatch(key string, matcher matcher.Matcher, awsProfile, awsRegion, awsNamespace string, awsDimensions [][]string, bufSize, flushMaxSize, flushMaxWait int, storageResolution int64, blocking bool) (Route, error) {
+	if flushMaxWait < 1 {
+		// run() flushes on a ticker with this period, and time.NewTicker panics on a non-positive one
+		return nil, fmt.Errorf("cloudWatch %q: flushMaxWait must be at least 1 ms", key)
+	}
+	if bufSize < 0 {
+		return nil, fmt.Errorf("cloudWatch %q: bufSize can not be negative", key)
+	}
 
 	r := &CloudWatch{
 		awsProfile:         awsProfile,
